@@ -101,6 +101,27 @@ Theorem C09_merge_step_next : forall h head1 head2 b x, head1 <> head2 ->
 Proof. exact PoolLinksProofs.merge_step_next. Qed.
 Print Assumptions C09_merge_step_next.
 
+(* dll_inv for MergeFrom: for ALL heaps and ALL buffer lists - if the destination pool's list L1 ++ head1 :: R1 and the
+   source pool's list L2 ++ head2 :: R2 are well-formed null-terminated doubly linked lists of distinct non-null buffers
+   (heads as shown) and share no buffer, then MergeFrom as coded terminates, keeps the destination head, nulls the source
+   head, and leaves ONE well-formed doubly linked list containing every buffer of both pools exactly once, namely
+   L1 ++ rev L2 ++ head1 :: R1 ++ head2 :: R2 (all full buffers before the head). *)
+Theorem C09_mergefrom_dll_inv : forall h L1 R1 L2 R2 head1 head2,
+  PoolLinksProofs.dll h (L1 ++ head1 :: R1) -> PoolLinksProofs.dll h (L2 ++ head2 :: R2) ->
+  (forall x, In x (L1 ++ head1 :: R1) -> In x (L2 ++ head2 :: R2) -> False) ->
+  exists h',
+    PoolLinks.merge_from (S (length (L1 ++ head1 :: R1) + length (L2 ++ head2 :: R2))) h head1 head2 = Some (h', head1, 0) /\
+    PoolLinksProofs.dll h' (L1 ++ rev L2 ++ head1 :: R1 ++ head2 :: R2).
+Proof. exact PoolLinksProofs.merge_from_dll. Qed.
+Print Assumptions C09_mergefrom_dll_inv.
+
+Theorem C09_dll_inhabited :
+  PoolLinksProofs.dll (PoolLinks.heap_of_lists [1; 2] [3; 4]) ([1] ++ 2 :: []) /\
+  PoolLinksProofs.dll (PoolLinks.heap_of_lists [1; 2] [3; 4]) ([3] ++ 4 :: []) /\
+  (forall x, In x ([1] ++ 2 :: []) -> In x ([3] ++ 4 :: []) -> False).
+Proof. exact PoolLinksProofs.dll_example. Qed.
+Print Assumptions C09_dll_inhabited.
+
 (* the pre-fix MergeFrom (second Gallina definition merge_from_prefix) orphans a buffer: witness pool1 = [1], pool2 = [2;3]
    with head 3; after the merge the list reachable from the head is 1,3 and buffer 2 is lost. *)
 Theorem C09_mergefrom_prefix_refuted :
